@@ -216,7 +216,10 @@ fn check_case(cx: &Ctx, key: &str, tup: &[usize]) -> CaseOut {
         if let Ok(ys) = psol.sol(*t) {
             let scale = 1.0 + y.iter().fold(0.0f64, |m, v| m.max(v.abs()));
             let d = y.iter().zip(&ys).fold(0.0f64, |m, (a, b)| m.max((a - b).abs()));
-            if d > 1e-9 * scale {
+            // (both are evaluations of a step interpolant at the same abscissa: the same step's, bit for bit, or - for
+            // a time within the matching slack of a step end - the neighbouring step's, which agrees to rounding there;
+            // the end state of the step is NOT the value at a time 1e-12 away from it)
+            if d > 256.0 * f64::EPSILON * scale {
                 viol!("value", format!("value at t={:e} differs from the plain run's interpolant by {:e}", t, d));
             }
             if y.iter().zip(&ys).all(|(a, b)| a.to_bits() == b.to_bits()) {
